@@ -38,6 +38,10 @@ def stops_erase_nothing(v, d, seed, tier):
         e = t["ev"][0] if t["ev"] else {}
         lost = e.get("fileslost") or []
         gone = "no such file" in str(e.get("err", ""))
+        if e.get("res") == "plotted" and (e.get("complete") is False or e.get("equal") is False) and not e.get("aLeft"):
+            lost = lost + ["table A was erased although table B is not the complete table (%s)" % e.get("note")]
+        if e.get("res") == "unreadable":
+            lost = lost + ["the space was marked plotted and table A erased, but table B cannot be read back (%s)" % e.get("err")]
         if lost or gone:
             st = s_["steps"][0]
             v.classify(dict(cause="table_erased_by_stop"),
